@@ -183,12 +183,29 @@ def build_harness(release=False, rustflags=None, fam=None, features=None):
     """cargo build of the Rust harness against /repo's working tree"""
     fam = fam or MAIN
     hd = fam.harness_dir
+    target = fam.target
+    if os.path.realpath(REPO) != "/repo":
+        # PV_REPO=<scratch copy of the repository>: build a copy of the harness crate whose path
+        # dependencies point into that copy, with its own target directory
+        import shutil
+        tag = hashlib.sha1(os.path.realpath(REPO).encode()).hexdigest()[:8]
+        alt = os.path.join(CACHE, "harness_%s_%s" % (fam.name, tag))
+        shutil.rmtree(alt, ignore_errors=True)
+        shutil.copytree(hd, alt, ignore=shutil.ignore_patterns("target", "Cargo.lock"))
+        for d, _, fs in os.walk(alt):
+            for f in fs:
+                if f == "Cargo.toml":
+                    q = os.path.join(d, f)
+                    t = open(q).read().replace('"/repo/', '"%s/' % os.path.realpath(REPO))
+                    open(q, "w").write(t)
+        hd = alt
+        target = fam.target + "_" + tag
     with Lock("cargo_" + fam.name):
         lock_src = os.path.join(REPO, "Cargo.lock")
         lock_dst = os.path.join(hd, "Cargo.lock")
         if os.path.exists(lock_src) and not os.path.exists(lock_dst):
             open(lock_dst, "w").write(open(lock_src).read())
-        env = dict(ENV, CARGO_TARGET_DIR=fam.target)
+        env = dict(ENV, CARGO_TARGET_DIR=target)
         if rustflags:
             env["RUSTFLAGS"] = rustflags
         cmd = ["cargo", "build", "--offline", "--quiet"] + (["--release"] if release else [])
@@ -198,7 +215,7 @@ def build_harness(release=False, rustflags=None, fam=None, features=None):
         if rc != 0 and "Cargo.lock" in out:
             open(lock_dst, "w").write(open(lock_src).read())
             rc, out = sh(cmd, cwd=hd, env=env, timeout=3000)
-    binp = os.path.join(fam.target, "release" if release else "debug", fam.bin_name)
+    binp = os.path.join(target, "release" if release else "debug", fam.bin_name)
     errs = "\n".join(l for l in out.splitlines() if l.startswith("error") or "-->" in l)[:3000]
     return rc == 0, binp, (errs or out[-3000:])
 
